@@ -7,6 +7,7 @@ package interp
 import (
 	"fmt"
 	"os"
+	"runtime/debug"
 	"go/types"
 
 	"verif/engine/smt"
@@ -45,7 +46,12 @@ type pathAbort struct {
 	reason string
 }
 
-func unsupported(msg string) pathAbort { return pathAbort{abUnsupported, msg} }
+func unsupported(msg string) pathAbort {
+	if os.Getenv("SYMGO_DEBUG") == "2" {
+		msg += "\n" + string(debug.Stack())
+	}
+	return pathAbort{abUnsupported, msg}
+}
 
 // rtErr is a target-level Go runtime error raised by the engine.
 type rtErr struct{ msg string }
